@@ -1146,7 +1146,12 @@ impl Family for FactorFamily {
             if prop == "C05" || (prop == "C01" && r.chance(0.5)) {
                 // abort instant: poll-indexed or time-indexed, inside the run
                 let approx_polls = ref_polls.max(1) + workers as u64;
-                if r.chance(0.5) {
+                let kind = r.weighted(&[35, 35, 30]);
+                if kind == 2 && workers >= 2 {
+                    // between the first polls of the workers of a parallel region (ECM level, sieve, recursion)
+                    let region = *r.pick(&[1u64, 1, 1, 2, 2, 3, 4, 6]);
+                    cfg.abort = AbortPlan::AtRegion(region, r.range(1, workers as u64 + 1));
+                } else if kind == 0 {
                     cfg.abort = AbortPlan::AtPoll(r.range(1, approx_polls + 1));
                 } else {
                     // time in [0, ~length of the run], biased towards the middle
